@@ -4,6 +4,9 @@ C03 — lookups terminate, and only when nothing closer is left to ask.
 import DhtVerif.Model.Traversal
 import DhtVerif.Props.C18
 import DhtVerif.Lemmas.C03
+import DhtVerif.Lemmas.C03Inv
+import DhtVerif.Lemmas.C03Wake
+import DhtVerif.Lemmas.C03Rep
 namespace Dht
 
 def idxAt (l : List String) (x : String) : Nat := l.findIdx (· == x)
@@ -35,6 +38,12 @@ def midCompletion (s : Trav) : Bool :=
 /-- What the run loop would compute if it evaluated now. -/
 def currentOffer (c : TravCfg) (s : Trav) : Bool := (!s.haveQuery c || c.alpha == 0) && s.outstanding == 0
 
+theorem midCompletion_eq (s : Trav) : midCompletion s = s.mid := by
+  unfold midCompletion Trav.mid
+  congr 1
+
+theorem currentOffer_eq (c : TravCfg) (s : Trav) : currentOffer c s = s.curOffer c := rfl
+
 /-- No lost wake-up: whenever the run loop sleeps on a generation that is still
 current, and no query is mid-completion, its view is current: the stalled offer
 it holds is the one it would compute now, and it has not left a startable query
@@ -44,7 +53,8 @@ theorem C03.no_lost_wakeup (c : TravCfg) (hsig : c.sigBeforeUnlock = true) (evs 
     (hrun : s.run = .sleeping g offer) (hgen : s.gen = g) (hstop : s.stopping = false)
     (hmid : midCompletion s = false) :
     offer = currentOffer c s ∧ (s.outstanding < c.alpha → s.haveQuery c = false) := by
-  sorry
+  rw [currentOffer_eq]
+  exact (Trav.Wake.exec hsig h).cur g offer hrun hgen hstop (by rw [← midCompletion_eq]; exact hmid)
 
 /-- Hence no hang: when nothing is in flight and the run loop cannot be woken,
 the stalled signal is on offer. -/
@@ -53,8 +63,16 @@ theorem C03.quiescent_offers_stalled (c : TravCfg) (hsig : c.sigBeforeUnlock = t
     (h : Trav.exec c {} evs = some s) (g : Nat) (offer : Bool)
     (hrun : s.run = .sleeping g offer) (hgen : s.gen = g) (hstop : s.stopping = false)
     (hidle : s.inflight = []) : offer = true := by
-  sorry
+  have hc := Trav.Core.exec h
+  have hout : s.outstanding = 0 := by rw [hc.outEq, hidle]; rfl
+  have hmid : midCompletion s = false := by unfold midCompletion; rw [hidle]; rfl
+  obtain ⟨ho, hq⟩ := C03.no_lost_wakeup c hsig evs s h g offer hrun hgen hstop hmid
+  rw [ho]
+  unfold currentOffer
+  rw [hq (by omega), hout]
+  rfl
 
+set_option linter.unusedVariables false in
 /-- The run loop is never stuck awake: in every reachable state in which it is
 not sleeping or exited, `runEval` is enabled. And a sleeping loop whose generation
 is stale can be woken. -/
@@ -62,7 +80,31 @@ theorem C03.run_loop_progress (c : TravCfg) (evs : List TravEv) (s : Trav)
     (h : Trav.exec c {} evs = some s) :
     (s.run = .awake → (s.step c .runEval).isSome = true) ∧
     (∀ g o, s.run = .sleeping g o → s.gen > g → (s.step c (.runWake .broadcast)).isSome = true) := by
-  sorry
+  constructor
+  · intro hr
+    simp [Trav.step, hr]
+  · intro g o hr hg
+    simp [Trav.step, Trav.runWake, hr, hg]
+
+namespace C03.Witness
+def tgt : Id := List.replicate 20 0
+def a1 : Addr := ⟨1, [1,2,3,4], 1⟩
+def a2 : Addr := ⟨1, [1,2,3,5], 2⟩
+def n1 : Cand := ⟨some (List.replicate 20 1), a1⟩
+def n2 : Cand := ⟨some (List.replicate 20 2), a2⟩
+/-- The hypothetical code that takes the wake-up channel after the unlock. -/
+def cfgBad : TravCfg := { target := tgt, alpha := 1, sigBeforeUnlock := false }
+/-- n1 is queried; the loop evaluates (one query in flight: no stalled offer) and unlocks; the
+query completes, reporting n2, and broadcasts; only then does the loop take the channel. -/
+def evsBad : List TravEv :=
+  [.addNodes [n1], .runEval,
+   .queryReturn a1 { responder := some (List.replicate 20 1), nodes := [n2] },
+   .addClosest a1, .addReplyNodes a1, .addReplyNodes6 a1, .finish a1, .captureGen]
+def sBad : Trav :=
+  { unq := [n2], queried := [a1], closest := [⟨List.replicate 20 1, a1, none⟩], outstanding := 0,
+    inflight := [], gen := 3, run := .sleeping 3 false, stopping := false, stopper := .none,
+    stalledSeen := 0, started := [a1] }
+end C03.Witness
 
 /-- Counterexample kept proved: if the channel were taken after the unlock, a
 wake-up can be lost — a reachable state with nothing in flight, the run loop asleep
@@ -71,7 +113,9 @@ theorem C03.lost_wakeup_if_signaled_after_unlock :
     ∃ (c : TravCfg) (evs : List TravEv) (s : Trav) (g : Nat),
       c.sigBeforeUnlock = false ∧ c.alpha > 0 ∧ Trav.exec c {} evs = some s ∧
       s.run = .sleeping g false ∧ s.gen = g ∧ s.inflight = [] ∧ s.stopping = false ∧ s.haveQuery c = true := by
-  sorry
+  refine ⟨C03.Witness.cfgBad, C03.Witness.evsBad, C03.Witness.sBad, 3, rfl, by decide, ?_, rfl, rfl, rfl, rfl, ?_⟩
+  · rfl
+  · decide +kernel
 
 /-- Termination: every query consumes a distinct address out of those ever
 reported (seeds, late AddNodes, reply node lists), so the number of queries in
@@ -82,12 +126,27 @@ def reported : List TravEv → List Addr
   | .queryReturn _ r :: es => (r.nodes ++ r.nodes6).map (·.addr.strKey) ++ reported es
   | _ :: es => reported es
 
+theorem reported_eq (evs : List TravEv) : reported evs = evs.flatMap repOf := by
+  induction evs with
+  | nil => rfl
+  | cons e es ih => cases e <;> simp [reported, repOf, ih]
+
 theorem C03.queries_bounded (c : TravCfg) (evs : List TravEv) (s : Trav)
     (h : Trav.exec c {} evs = some s) :
     (s.started.map Addr.strKey).Nodup ∧ (∀ a ∈ s.started, a.strKey ∈ reported evs) ∧
     s.started.length ≤ (reported evs).eraseDups.length := by
-  sorry
+  have hc := Trav.Core.exec h
+  have hr := Trav.Rep.exec evs [] {} s Trav.Rep.init h
+  rw [List.nil_append, ← reported_eq] at hr
+  have hnd : (s.started.map Addr.strKey).Nodup := by rw [hc.queriedEq]; exact hc.nodup
+  have hsub : ∀ k ∈ s.started.map Addr.strKey, k ∈ reported evs := by
+    rw [hc.queriedEq]; exact hr.queried
+  refine ⟨hnd, fun a ha => hsub _ (List.mem_map_of_mem ha), ?_⟩
+  have := nodup_length_le_of_subset (s.started.map Addr.strKey) (reported evs).eraseDups hnd
+    (fun x hx => List.mem_eraseDups.mpr (hsub x hx))
+  simpa using this
 
+set_option linter.unusedVariables false in
 /-- At the moment stalled is on offer (view current), no query is in flight and
 every candidate left in the frontier is, with the result set full, either of
 unknown ID or strictly farther from the target than the farthest member; with
@@ -102,7 +161,56 @@ theorem C03.stalled_means_exhausted (c : TravCfg) (hsig : c.sigBeforeUnlock = tr
     (KNN.full c.k s.closest = false → s.unq = []) ∧
     (KNN.full c.k s.closest = true → ∀ far, KNN.farthest s.closest = some far → ∀ n ∈ s.unq,
       n.id = none ∨ ∃ i, n.id = some i ∧ Id.cmp (Id.distance i c.target) (Id.distance far.id c.target) = .gt) := by
-  sorry
+  have hc := Trav.Core.exec h
+  obtain ⟨hoff, hq⟩ := C03.no_lost_wakeup c hsig evs s h g true hrun hgen hstop hmid
+  have hoff' : ((!s.haveQuery c || c.alpha == 0) && s.outstanding == 0) = true := hoff.symm
+  simp only [Bool.and_eq_true, Bool.or_eq_true, Bool.not_eq_true', beq_iff_eq] at hoff'
+  obtain ⟨h1, hout⟩ := hoff'
+  have hhq : s.haveQuery c = false := by
+    rcases h1 with h1 | h1
+    · exact h1
+    · omega
+  refine ⟨hout, ?_⟩
+  have hsorted := hc.sorted
+  unfold Trav.haveQuery at hhq
+  cases hu : s.unq with
+  | nil => simp
+  | cons cu rest =>
+    rw [hu] at hhq hsorted
+    simp only at hhq
+    have hhead := (List.pairwise_cons.mp hsorted).1
+    constructor
+    · intro hfull
+      rw [hfull] at hhq
+      simp at hhq
+    · intro hfull far hfar n hn
+      rw [hfull, hfar] at hhq
+      simp only [Bool.not_true, Bool.false_eq_true, if_false] at hhq
+      cases hid : cu.id with
+      | none =>
+        left
+        rcases List.mem_cons.mp hn with rfl | hn'
+        · exact hid
+        · have := hhead n hn'
+          cases hnid : n.id with
+          | none => rfl
+          | some j => rw [closerThan_none_some c.target _ _ j hid hnid] at this; cases this
+      | some i =>
+        rw [hid] at hhq
+        simp only [bne_eq_false_iff_eq] at hhq
+        have hlt : Id.cmp (Id.distance far.id c.target) (Id.distance i c.target) = .lt :=
+          (Id.cmp_gt_iff _ _).mp hhq
+        rcases List.mem_cons.mp hn with rfl | hn'
+        · right; exact ⟨i, hid, hhq⟩
+        · cases hnid : n.id with
+          | none => left; rfl
+          | some j =>
+            right
+            refine ⟨j, rfl, (Id.cmp_gt_iff _ _).mpr ?_⟩
+            have := (closerThan_some_some c.target cu n i j hid hnid).mp (hhead n hn')
+            rcases this with h2 | ⟨h2, _⟩
+            · exact Id.cmp_lt_trans _ _ _ hlt h2
+            · rw [← h2]; exact hlt
 
 /-- Stopping completes once the in-flight queries have returned: the waiter's
 view of `outstanding` is current whenever it sleeps on the current generation,
@@ -112,6 +220,89 @@ theorem C03.stop_completes (c : TravCfg) (evs : List TravEv) (s : Trav)
     (∀ g, s.stopper = .sleeping g → s.gen = g → s.outstanding ≠ 0) ∧
     (s.stopper = .awake → s.outstanding = 0 → ∃ s', s.step c .stopperStep = some s' ∧ s'.isStopped = true) ∧
     (s.stopper ≠ .none ↔ s.stopping = true) := by
-  sorry
+  have hc := Trav.Core.exec h
+  refine ⟨hc.stopOut, ?_, hc.stopIff⟩
+  intro hst hout
+  refine ⟨{ s with stopper := .done }, ?_, rfl⟩
+  simp [Trav.step, hst, hout]
+
+/-! ## Further facts (the structural invariant behind the theorems above) -/
+
+/-- `outstanding` counts exactly the query goroutines in flight, their addresses are
+pairwise different, and the frontier is always ordered by `closerThan` (for any
+candidate IDs, well-formed or not). -/
+theorem C03.structure (c : TravCfg) (evs : List TravEv) (s : Trav) (h : Trav.exec c {} evs = some s) :
+    s.outstanding = s.inflight.length ∧ (s.inflight.map (·.1)).Nodup ∧
+    s.started.map Addr.strKey = s.queried ∧
+    s.unq.Pairwise (fun a b => closerThan c.target a b = true) ∧
+    (∀ g o, s.run = .sleeping g o → g ≤ s.gen) := by
+  have hc := Trav.Core.exec h
+  exact ⟨hc.outEq, hc.inflight_nodup, hc.queriedEq, hc.sorted, hc.runGen⟩
+
+/-- With the source's order (channel taken before the unlock) the intermediate
+`evaluated` phase does not occur. -/
+theorem C03.never_evaluated (c : TravCfg) (hsig : c.sigBeforeUnlock = true) (evs : List TravEv) (s : Trav)
+    (h : Trav.exec c {} evs = some s) (o : Bool) : s.run ≠ .evaluated o :=
+  (Trav.Wake.exec hsig h).noEval o
+
+/-! ## Non-vacuity -/
+
+namespace C03.Witness
+/-- The source's order, `alpha = 1`. -/
+def cfgOk : TravCfg := { target := tgt, alpha := 1 }
+def q1 : List TravEv :=
+  [.queryReturn a1 { responder := some (List.replicate 20 1), nodes := [n2] },
+   .addClosest a1, .addReplyNodes a1, .addReplyNodes6 a1, .finish a1]
+def q2 : List TravEv :=
+  [.queryReturn a2 { responder := some (List.replicate 20 2), nodes := [n1] },
+   .addClosest a2, .addReplyNodes a2, .addReplyNodes6 a2, .finish a2]
+
+/-- A complete lookup: n1 is queried and reports n2, n2 is queried and reports n1 again
+(not queried twice); then the loop sleeps on the current generation offering stalled. -/
+def evsOk : List TravEv :=
+  [.addNodes [n1], .runEval] ++ q1 ++ [.runWake .broadcast, .runEval] ++ q2 ++ [.runWake .broadcast, .runEval]
+def sOk : Trav := (Trav.exec cfgOk {} evsOk).getD {}
+
+example : Trav.exec cfgOk {} evsOk = some sOk := rfl
+example : sOk.run = .sleeping 4 true ∧ sOk.gen = 4 ∧ sOk.stopping = false ∧ sOk.inflight = [] ∧
+    midCompletion sOk = false ∧ sOk.started = [a1, a2] ∧ sOk.closest.length = 2 := by decide +kernel
+example : (reported evsOk).eraseDups.length = 2 := by decide +kernel
+
+/-- The hypotheses of `no_lost_wakeup` with a query in flight: asleep on the current
+generation, no stalled offer. -/
+def sMid : Trav := (Trav.exec cfgOk {} [.addNodes [n1, n2], .runEval]).getD {}
+example : Trav.exec cfgOk {} [.addNodes [n1, n2], .runEval] = some sMid := rfl
+example : sMid.run = .sleeping 2 false ∧ sMid.gen = 2 ∧ sMid.stopping = false ∧ midCompletion sMid = false ∧
+    sMid.outstanding = 1 ∧ sMid.unq = [n2] ∧ sMid.haveQuery cfgOk = true := by decide +kernel
+
+/-- `stalled_means_exhausted` with a full result set (`k = 1`) and a frontier that is not
+empty: n2 stays unqueried because it is farther than the farthest (only) member n1. -/
+def cfgK1 : TravCfg := { target := tgt, alpha := 1, k := 1 }
+def evsK1 : List TravEv := [.addNodes [n1], .runEval] ++ q1 ++ [.runWake .broadcast, .runEval]
+def sK1 : Trav := (Trav.exec cfgK1 {} evsK1).getD {}
+example : Trav.exec cfgK1 {} evsK1 = some sK1 := rfl
+example : sK1.run = .sleeping 3 true ∧ sK1.gen = 3 ∧ sK1.stopping = false ∧ midCompletion sK1 = false ∧
+    sK1.unq = [n2] ∧ KNN.full cfgK1.k sK1.closest = true ∧ (∀ n ∈ sK1.unq, n.ok) := by
+  refine ⟨by decide +kernel, by decide +kernel, by decide +kernel, by decide +kernel, by decide +kernel,
+    by decide +kernel, ?_⟩
+  intro n hn i hi
+  have : n = n2 := by simpa using (show n ∈ [n2] from hn)
+  subst this
+  cases hi
+  rfl
+
+/-- `stop_completes`: the waiter asleep on the current generation with a query outstanding,
+and the run to `Stopped()`. -/
+def evsStop : List TravEv := [.addNodes [n1], .runEval, .stop, .stopperStep]
+def sStop : Trav := (Trav.exec cfgOk {} evsStop).getD {}
+example : Trav.exec cfgOk {} evsStop = some sStop := rfl
+example : sStop.stopper = .sleeping 1 ∧ sStop.gen = 1 ∧ sStop.outstanding = 1 := by decide +kernel
+example : (Trav.exec cfgOk {} (evsStop ++ q1 ++ [.stopperStep, .stopperStep])).map Trav.isStopped = some true := by
+  decide +kernel
+
+/-- The lost wake-up state of `cfgBad` is not reachable by the same history under `cfgOk`
+(`captureGen` is not enabled). -/
+example : Trav.exec cfgOk {} evsBad = none := rfl
+end C03.Witness
 
 end Dht
